@@ -59,7 +59,9 @@ def correspondence(ctx):
              for j, (p, ps) in enumerate(SEQ_FIXED)]
     for k in range(n):
         twin = None
-        if k % 6 == 5:
+        if k % 12 == 11:
+            prog, twin = caitgen.call_twins(rng)
+        elif k % 6 == 5:
             prog, twin = caitgen.twin_case(rng)
         elif k % 3 == 2:
             prog = caitgen.similar_program(rng)
@@ -111,7 +113,7 @@ def correspondence(ctx):
             except caitgen.Refuse:
                 op_ = other
             dp = pats[1] if len(pats) > 1 else prog
-            seq = [(prog, dp), (other, op_), (prog, dp), ('x = = 1\n', '___ = ___\n'), (prog, dp), (other, dp), (other, op_), (prog, op_)]
+            seq = [(prog, dp), (other, op_), (prog, dp), ('x = = 1\n', '___ = ___\n'), (prog, dp), ('', dp), (other, dp), ('\n', op_), (other, op_), (prog, op_)]
             explicit = [list(x) for x in seq[:rng.randrange(3, len(seq) + 1)]]
         cases.append({'program': prog, 'patterns': pats, 'meta': meta, 'perturb': perturb, 'explicit': explicit})
     res, mism = c10.run_cases(ctx, cases, 'derived')
